@@ -1,35 +1,62 @@
 """C13 — schedule import creates exactly the flight instances the row implies.
 
-R1  geodesic argument roles at the distance plausibility rule (T-ROLE).
-R2  defaulted-optional flow: once `x_d = opt or default` exists in a function,
-    the raw optional may not flow to a callee.
-R3  leg roles: the departure instant uses only departure-role names and the
-    origin's time zone; the arrival instant only arrival-role names, the
-    destination's zone, and is the only user of the arrival day offset.  Column
-    lists and value tuples of INSERTs, and the arguments passed by the importer,
-    agree position by position in role (antonym pairs departure/arrival,
-    origin/destination, from/to).
+Rules decide *what is computed*, not how it is spelled: values are followed through
+single-definition locals and through resolved callees (`_Sym`, a symbolic executor that
+turns straight-line code with if/else and early returns into one conditional expression),
+and the pure row-decoding functions are evaluated by the checker's own interpreter of
+the extracted AST (`_Interp`; nothing from the repository is imported or run) on the finite
+table of field values the schedule format documents.
+
+R1  geodesic argument roles at the distance plausibility rule (T-ROLE); the distance is
+    between origin and destination and is converted to km.  Roles are resolved through
+    local aliases, so the construct key names roles, not argument text.
+R2  open-ended effective dates.  For each of the `effective_from` / `effective_to`
+    parameters of _add_flight and _add_schedule the value passed by the importer is
+    followed back (through locals, tuple results and helper methods of any class) to a
+    case list.  Every case that is the row's own optional date is guarded by that date
+    being set (otherwise None reaches pd.date_range); every other case is a date whose
+    year is the data year given to the database's constructor and whose month/day are
+    1 January (from) / 31 December (to).  Also (program-wide in the thorough tier): once
+    `x_d = opt or default` exists in a function the raw optional is not passed to a callee.
+R3  leg roles and instants.  The value stored in each timestamp column is resolved to one
+    expression; the departure instant uses only departure-role names and the origin's
+    zone, the arrival instant only arrival-role names, the destination's zone, and is the
+    only user of the arrival day offset.  The zone-aware instant is built *per flight date
+    from that date*: the value that is localised depends on the date of the per-day loop
+    (a UTC offset taken once per flight is wrong across a DST change).  Wall-clock
+    arithmetic first, localisation last.  hour→hours, minute→minutes.  Column lists and
+    value tuples of INSERTs, and the arguments passed by the importer, agree position by
+    position in role (antonym pairs departure/arrival, origin/destination, from/to).
 R4  count recorded (T-ORDER): every path of `add` to `return True` passes
     _add_flight, _add_schedule and _set_flight_count(…, n) with n the return of
     _add_schedule and the id returned by _add_flight.
-R5  rejection sites ⊆ documented reasons.
-R6  expansion shape: inclusive pd.date_range over the two effective dates
-    (zero-expected `inclusive=`/`closed=` with positive control); the weekday
-    filter skips exactly when the day is *not in* the operating set; a
-    mis-ordered instance is skipped only after the warning; everything else
-    is appended and counted.
+R5  rejection sites ⊆ documented reasons; `is_row_valid` evaluated on the table of
+    documented field values rejects exactly the documented ones.
+R6  expansion shape: inclusive daily pd.date_range over the two effective dates
+    (zero-expected `inclusive=`/`closed=`/`periods=`/`freq=` with positive control); per
+    date the instance is skipped exactly when its weekday is not in the operating set or
+    its arrival precedes its departure (the latter only with the warning) — decided on
+    the guard *atoms* of every `continue` and of the append, whatever their nesting;
+    everything else is appended once and counted.  Row decoding (`from_csv_row`)
+    evaluated on tables: all 128 weekday sets in both encodings, arrival-day codes
+    'P'/blank/0/1/2, open-ended markers and YYYYMMDD dates, HHMM times, flight number,
+    end-point roles.
 R7  plausibility rule shape: a row is dropped for distance only when both the
     absolute and the relative difference exceed their thresholds.
+R8  the airport reader admits every row that carries an IATA code.
 """
 
 from __future__ import annotations
 
 import ast
+import datetime as _dt
+import itertools
 import re
 
-from ..astutil import (ancestors, call_name, calls_in, guards_of, kwarg, names_in, norm,
+from ..astutil import (LOG_CALLS, ancestors, call_name, calls_in, conjuncts, const_value, guards_of, names_in, norm,
                        single_def_value, stmt_of, stores_to, walk_no_nested)
 from ..cfg import CFG
+from ..loader import dotted_name
 from ..resolve import resolve_call
 from ..roles import check_geod_call, geod_calls
 
@@ -54,6 +81,8 @@ def _idents(e: ast.AST) -> set[str]:
             out |= _tokens(x.id)
         elif isinstance(x, ast.Attribute):
             out |= _tokens(x.attr)
+        elif isinstance(x, ast.keyword) and x.arg:
+            pass
     return out
 
 
@@ -72,20 +101,939 @@ def role_conflict(slot: str, value: ast.AST) -> str | None:
 
 
 def ancestors_(n):
-    from ..astutil import ancestors
     return list(ancestors(n))
 
 
-def run(ctx):
-    prog = ctx.prog
-    om = prog.module(OAG)
-    wm = prog.module(WDB)
-    add = om.func('OAGDatabase.add')
-    sch = wm.func('WritableDatabase._add_schedule')
-    flt = wm.func('WritableDatabase._add_flight')
-    dck = wm.func('WritableDatabase._distance_check')
+# ====================================================================================================
+# A. copies and substitution of single-definition locals
+# ====================================================================================================
 
-    # ---- R1 ----------------------------------------------------------------
+_LOC = ('lineno', 'col_offset', 'end_lineno', 'end_col_offset')
+_KEEP = ('_fi', '_callee')
+
+
+def _shell(n: ast.AST) -> ast.AST:
+    new = n.__class__()
+    for a in _LOC + _KEEP:
+        if hasattr(n, a):
+            setattr(new, a, getattr(n, a))
+    return new
+
+
+def _clone(n):
+    """copy without the loader's parent links (copy.deepcopy would follow them through the whole module)"""
+    if isinstance(n, ast.AST):
+        new = _shell(n)
+        for f in n._fields:
+            setattr(new, f, _clone(getattr(n, f, None)))
+        return new
+    if isinstance(n, list):
+        return [_clone(x) for x in n]
+    return n
+
+
+def _subst(fn: ast.AST, e: ast.AST, _seen: frozenset = frozenset()) -> ast.AST:
+    """e with every single-definition local of fn replaced by its value, recursively (parameters, loop targets and
+    names bound more than once stay)"""
+    if isinstance(e, ast.Name) and isinstance(e.ctx, ast.Load) and e.id not in _seen and len(_seen) < 12:
+        d = single_def_value(fn, e.id)
+        if d is not None:
+            return _subst(fn, d, _seen | {e.id})
+        return _clone(e)
+    if isinstance(e, ast.AST):
+        new = _shell(e)
+        for f in e._fields:
+            setattr(new, f, _subst(fn, getattr(e, f, None), _seen))
+        return new
+    if isinstance(e, list):
+        return [_subst(fn, x, _seen) for x in e]
+    return e
+
+
+def _params(fn: ast.AST) -> list[str]:
+    a = fn.args
+    return [x.arg for x in a.posonlyargs + a.args + a.kwonlyargs]
+
+
+def _arg_map(callee, c: ast.Call) -> dict[str, ast.expr]:
+    """parameter name -> argument expression of call c (receiver not included)"""
+    ps = callee.params
+    if callee.cls is not None and not any('staticmethod' in d for d in callee.decorators()):
+        ps = ps[1:]
+    out = {}
+    for p, a in zip(ps, c.args):
+        if isinstance(a, ast.Starred):
+            break
+        out[p] = a
+    for k in c.keywords:
+        if k.arg:
+            out[k.arg] = k.value
+    return out
+
+
+# ====================================================================================================
+# B. symbolic execution: a function body as one conditional expression
+# ====================================================================================================
+
+class _Opaque(Exception):
+    pass
+
+
+def _opaque(name: str) -> ast.Name:
+    n = ast.Name(id=f'<{name}?>', ctx=ast.Load())
+    n._opaque = True
+    return n
+
+
+def _same(a, b) -> bool:
+    return a is b or (a is not None and b is not None and ast.dump(a) == ast.dump(b))
+
+
+class _Sym:
+    """Symbolic values are expressions over the *root* frame's parameters and attributes.  `block` walks statements
+    in order (Assign / AugAssign / If with both-way merge as a conditional expression / early return); loops, try and
+    match make what they assign opaque.  `ev` substitutes names and tags every call with the callee resolved in the
+    frame the call was written in; `expand` replaces tagged calls of small repository functions by their symbolic
+    return value (any class: resolution is by annotation, not by file)."""
+
+    MAX_DEPTH = 4
+
+    def __init__(self, prog):
+        self.prog = prog
+
+    def ev(self, fi, n, env):
+        if isinstance(n, ast.Name) and isinstance(n.ctx, ast.Load) and n.id in env:
+            return env[n.id]
+        if isinstance(n, ast.AST):
+            new = _shell(n)
+            for f in n._fields:
+                setattr(new, f, self.ev(fi, getattr(n, f, None), env))
+            if not hasattr(new, '_fi'):
+                new._fi = fi
+            if isinstance(n, ast.Call) and not hasattr(new, '_callee'):
+                try:
+                    new._callee = resolve_call(self.prog, fi, n)
+                except Exception:
+                    new._callee = None
+            return new
+        if isinstance(n, list):
+            return [self.ev(fi, x, env) for x in n]
+        return n
+
+    def bind(self, env, t, v):
+        if isinstance(t, ast.Name):
+            env[t.id] = v
+        elif isinstance(t, (ast.Tuple, ast.List)):
+            for i, el in enumerate(t.elts):
+                if isinstance(el, ast.Starred):
+                    for nm in names_in(el):
+                        env[nm] = _opaque(nm)
+                    continue
+                if isinstance(v, (ast.Tuple, ast.List)) and len(v.elts) == len(t.elts):
+                    self.bind(env, el, v.elts[i])
+                else:
+                    s = ast.Subscript(value=v, slice=ast.Constant(value=i), ctx=ast.Load())
+                    for a in _LOC:
+                        if hasattr(v, a):
+                            setattr(s, a, getattr(v, a))
+                    self.bind(env, el, s)
+
+    def block(self, fi, stmts, env, rets, guards, sites):
+        """env after the block, or None when no path falls out of it"""
+        for st in stmts:
+            if isinstance(st, ast.Return):
+                rets.append((list(guards), self.ev(fi, st.value, env) if st.value is not None else ast.Constant(value=None)))
+                return None
+            if isinstance(st, (ast.Raise, ast.Continue, ast.Break)):
+                return None
+            heads = [st] if not isinstance(st, (ast.If, ast.For, ast.While, ast.Try, ast.With, ast.Match,
+                                                ast.FunctionDef, ast.ClassDef)) else \
+                [getattr(st, 'test', None) or getattr(st, 'iter', None) or getattr(st, 'subject', None)]
+            for h in heads:
+                if h is not None:
+                    for c in calls_in(h):
+                        sites[id(c)] = dict(env)
+            if isinstance(st, ast.Assign):
+                v = self.ev(fi, st.value, env)
+                for t in st.targets:
+                    self.bind(env, t, v)
+            elif isinstance(st, ast.AnnAssign):
+                if st.value is not None:
+                    self.bind(env, st.target, self.ev(fi, st.value, env))
+            elif isinstance(st, ast.AugAssign):
+                if isinstance(st.target, ast.Name):
+                    cur = env.get(st.target.id) or ast.Name(id=st.target.id, ctx=ast.Load())
+                    env[st.target.id] = ast.BinOp(left=cur, op=st.op, right=self.ev(fi, st.value, env))
+            elif isinstance(st, ast.If):
+                t = self.ev(fi, st.test, env)
+                e1 = self.block(fi, st.body, dict(env), rets, guards + [(t, True)], sites)
+                e2 = self.block(fi, st.orelse, dict(env), rets, guards + [(t, False)], sites)
+                if e1 is None and e2 is None:
+                    return None
+                if e1 is None:
+                    env.clear(); env.update(e2)
+                    guards = guards + [(t, False)]
+                elif e2 is None:
+                    env.clear(); env.update(e1)
+                    guards = guards + [(t, True)]
+                else:
+                    merged = {}
+                    for k in set(e1) | set(e2):
+                        a = e1.get(k) or ast.Name(id=k, ctx=ast.Load())
+                        b = e2.get(k) or ast.Name(id=k, ctx=ast.Load())
+                        merged[k] = a if _same(a, b) else ast.IfExp(test=t, body=a, orelse=b)
+                    env.clear(); env.update(merged)
+            elif isinstance(st, ast.With):
+                for it in st.items:
+                    if it.optional_vars is not None:
+                        for nm in names_in(it.optional_vars):
+                            env[nm] = _opaque(nm)
+                e1 = self.block(fi, st.body, env, rets, guards, sites)
+                if e1 is None:
+                    return None
+            elif isinstance(st, (ast.For, ast.While, ast.Try, ast.Match)):
+                for t, _, _ in stores_to(st):
+                    for nm in names_in(t):
+                        env[nm] = _opaque(nm)
+                for x in walk_no_nested(st):
+                    if isinstance(x, ast.ExceptHandler) and x.name:
+                        env[x.name] = _opaque(x.name)
+                    if isinstance(x, ast.Call):
+                        sites.setdefault(id(x), dict(env))
+                if any(isinstance(x, ast.Return) for x in walk_no_nested(st)):
+                    rets.append((list(guards) + [(_opaque('path'), True)], _opaque('return')))
+            elif isinstance(st, (ast.FunctionDef, ast.ClassDef)):
+                env.pop(st.name, None)
+        return env
+
+    @staticmethod
+    def conj(guards):
+        ts = [t if pol else ast.UnaryOp(op=ast.Not(), operand=t) for t, pol in guards]
+        return ts[0] if len(ts) == 1 else ast.BoolOp(op=ast.And(), values=ts)
+
+    def fold(self, rets):
+        expr = None
+        for guards, v in reversed(rets):
+            if expr is None or not guards:
+                expr = v
+            else:
+                expr = ast.IfExp(test=self.conj(guards), body=v, orelse=expr)
+        return expr if expr is not None else ast.Constant(value=None)
+
+    def returns(self, callee, env):
+        rets = []
+        e = self.block(callee, callee.node.body, env, rets, [], {})
+        if e is not None:
+            rets.append(([], ast.Constant(value=None)))
+        return self.fold(rets)
+
+    def inline(self, c: ast.Call, depth: int):
+        callee = getattr(c, '_callee', None)
+        if callee is None or depth >= self.MAX_DEPTH or callee.name in ('__init__', '__post_init__'):
+            return None
+        a = callee.node.args
+        if a.vararg or a.kwarg or sum(1 for _ in ast.walk(callee.node)) > 400:
+            return None
+        if any(isinstance(x, (ast.Yield, ast.YieldFrom, ast.Await)) for x in ast.walk(callee.node)):
+            return None
+        decs = callee.decorators()
+        if any(d for d in decs if not any(k in d for k in ('staticmethod', 'classmethod'))):
+            return None
+        ps = callee.params
+        env = {}
+        if callee.cls is not None and not any('staticmethod' in d for d in decs) and ps:
+            if not isinstance(c.func, ast.Attribute):
+                return None
+            env[ps[0]] = c.func.value
+            ps = ps[1:]
+        if any(isinstance(x, ast.Starred) for x in c.args) or any(k.arg is None for k in c.keywords) \
+                or len(c.args) > len(ps):
+            return None
+        for p, v in zip(ps, c.args):
+            env[p] = v
+        for k in c.keywords:
+            if k.arg not in ps:
+                return None
+            env[k.arg] = k.value
+        pos = a.posonlyargs + a.args
+        for arg, d in list(zip(pos[len(pos) - len(a.defaults):], a.defaults)) + \
+                [(x, d) for x, d in zip(a.kwonlyargs, a.kw_defaults) if d is not None]:
+            env.setdefault(arg.arg, self.ev(callee, d, {}))
+        if any(p not in env for p in ps):
+            return None
+        r = self.returns(callee, env)
+        if any(getattr(x, '_opaque', False) for x in ast.walk(r)):
+            return None
+        return r
+
+    def expand(self, e, depth=0):
+        """inline tagged calls bottom-up; select tuple components"""
+        if isinstance(e, list):
+            return [self.expand(x, depth) for x in e]
+        if not isinstance(e, ast.AST):
+            return e
+        new = _shell(e)
+        for f in e._fields:
+            setattr(new, f, self.expand(getattr(e, f, None), depth))
+        if isinstance(new, ast.Call):
+            r = self.inline(new, depth)
+            if r is not None:
+                return self.expand(r, depth + 1)
+        if isinstance(new, ast.Subscript):
+            return self.select(new.value, new.slice) or new
+        return new
+
+    def select(self, v, sl):
+        i = const_value(sl)
+        if not isinstance(i, int):
+            return None
+        if isinstance(v, (ast.Tuple, ast.List)) and -len(v.elts) <= i < len(v.elts):
+            return v.elts[i]
+        if isinstance(v, ast.IfExp):
+            a, b = self.select(v.body, sl), self.select(v.orelse, sl)
+            if a is not None and b is not None:
+                return ast.IfExp(test=v.test, body=a, orelse=b)
+        return None
+
+
+def _cases(e, guards=()):
+    """[(guards, leaf)]: the values a conditional / `or`-defaulted expression can take"""
+    if isinstance(e, ast.IfExp):
+        return _cases(e.body, guards + ((e.test, True),)) + _cases(e.orelse, guards + ((e.test, False),))
+    if isinstance(e, ast.BoolOp) and isinstance(e.op, ast.Or):
+        out, g = [], guards
+        for v in e.values[:-1]:
+            out.append((g + ((v, True),), v))
+            g = g + ((v, False),)
+        return out + _cases(e.values[-1], g)
+    return [(tuple(guards), e)]
+
+
+def _atoms(guards):
+    return [a for t, pol in guards for a in conjuncts(t, pol)]
+
+
+def _guarded_set(guards, leaf) -> bool:
+    """do the guards establish that `leaf` (an optional value) is set?"""
+    key = norm(leaf)
+    for t, pol in _atoms(guards):
+        if norm(t) == key and pol:
+            return True
+        if isinstance(t, ast.Compare) and len(t.ops) == 1 and norm(t.left) == key \
+                and const_value(t.comparators[0]) is None and isinstance(t.comparators[0], ast.Constant):
+            if isinstance(t.ops[0], (ast.IsNot, ast.NotEq)) and pol:
+                return True
+            if isinstance(t.ops[0], (ast.Is, ast.Eq)) and not pol:
+                return True
+    return False
+
+
+def _guarded_unset(guards, key: str) -> bool:
+    for t, pol in _atoms(guards):
+        if norm(t) == key and not pol:
+            return True
+        if isinstance(t, ast.Compare) and len(t.ops) == 1 and norm(t.left) == key \
+                and isinstance(t.comparators[0], ast.Constant) and t.comparators[0].value is None:
+            if isinstance(t.ops[0], (ast.Is, ast.Eq)) and pol:
+                return True
+            if isinstance(t.ops[0], (ast.IsNot, ast.NotEq)) and not pol:
+                return True
+    return False
+
+
+class _Undecided(Exception):
+    pass
+
+
+def _date_cases(e, guards=()):
+    """[(guards, (year, month, day))] with symbolic components, for an expression that denotes a calendar date"""
+    out = []
+    for g, leaf in _cases(e, tuple(guards)):
+        if isinstance(leaf, ast.Call):
+            nm = call_name(leaf).split('.')[-1]
+            if nm == 'date' and not any(isinstance(a, ast.Starred) for a in leaf.args):
+                comp = dict(zip(('year', 'month', 'day'), leaf.args))
+                comp.update({k.arg: k.value for k in leaf.keywords})
+                if set(comp) == {'year', 'month', 'day'}:
+                    out.append((g, (comp['year'], comp['month'], comp['day'])))
+                    continue
+            if nm == 'replace' and isinstance(leaf.func, ast.Attribute) and not leaf.args \
+                    and all(k.arg in ('year', 'month', 'day') for k in leaf.keywords):
+                kw = {k.arg: k.value for k in leaf.keywords}
+                for g2, (y, m, d) in _date_cases(leaf.func.value, g):
+                    out.append((g2, (kw.get('year', y), kw.get('month', m), kw.get('day', d))))
+                continue
+            raise _Undecided(norm(leaf)[:60])
+        if isinstance(leaf, ast.BinOp) and isinstance(leaf.op, ast.Sub) and isinstance(leaf.right, ast.Call) \
+                and call_name(leaf.right).split('.')[-1] == 'timedelta' \
+                and [(k.arg, const_value(k.value)) for k in leaf.right.keywords] + \
+                    [('days', const_value(a)) for a in leaf.right.args[:1]] == [('days', 1)]:
+            for g2, (y, m, d) in _date_cases(leaf.left, g):
+                if const_value(m) == 1 and const_value(d) == 1 and isinstance(y, ast.BinOp) and isinstance(y.op, ast.Add) \
+                        and const_value(y.right) == 1:
+                    out.append((g2, (y.left, ast.Constant(value=12), ast.Constant(value=31))))
+                else:
+                    raise _Undecided(norm(leaf)[:60])
+            continue
+        if dotted_name(leaf):
+            out.append((g, tuple(ast.Attribute(value=leaf, attr=a, ctx=ast.Load()) for a in ('year', 'month', 'day'))))
+            continue
+        raise _Undecided(norm(leaf)[:60])
+    return out
+
+
+def _scalar_cases(e):
+    """cases of a scalar that may be `<date expression>.year`"""
+    if isinstance(e, ast.Attribute) and e.attr in ('year', 'month', 'day') and not dotted_name(e):
+        i = ('year', 'month', 'day').index(e.attr)
+        return [t[i] for _, t in _date_cases(e.value)]
+    return [e]
+
+
+# ====================================================================================================
+# C. interpreter of extracted pure functions over explicit values (the checker's own evaluator)
+# ====================================================================================================
+
+class _Undecidable(Exception):
+    """the interpreter met a construct it does not model"""
+
+
+class _Raised(Exception):
+    """the interpreted code raises"""
+    def __init__(self, exc):
+        super().__init__(repr(exc))
+        self.exc = exc
+
+
+class _Return(Exception):
+    def __init__(self, value):
+        self.value = value
+
+
+class _Break(Exception):
+    pass
+
+
+class _Continue(Exception):
+    pass
+
+
+class _Rec:
+    """instance of a repository class: class name + field values"""
+    def __init__(self, cls, fields, ci=None):
+        self.cls, self.fields, self.ci = cls, fields, ci
+
+    def _k(self):
+        return (self.cls, tuple(sorted(self.fields.items(), key=lambda kv: kv[0])))
+
+    def __eq__(self, o):
+        return isinstance(o, _Rec) and self.cls == o.cls and self.fields == o.fields
+
+    def __hash__(self):
+        return hash(self._k())
+
+    def __repr__(self):
+        return f'{self.cls}({", ".join(f"{k}={v!r}" for k, v in self.fields.items())})'
+
+
+class _ClassRef:
+    def __init__(self, ci):
+        self.ci = ci
+
+
+class _Fn:
+    def __init__(self, fi, node, scopes):
+        self.fi, self.node, self.scopes = fi, node, scopes
+
+
+_BUILTINS = {n: getattr(__builtins__, n) if not isinstance(__builtins__, dict) else __builtins__[n] for n in (
+    'int', 'str', 'len', 'range', 'set', 'frozenset', 'bool', 'float', 'abs', 'min', 'max', 'list', 'tuple', 'dict',
+    'sorted', 'any', 'all', 'sum', 'enumerate', 'zip', 'reversed', 'isinstance', 'divmod', 'round', 'repr', 'ord', 'chr',
+    'Exception', 'ValueError', 'KeyError', 'TypeError', 'IndexError', 'AttributeError', 'RuntimeError', 'LookupError',
+    'ArithmeticError', 'ZeroDivisionError', 'BaseException')}
+_STDLIB = {'datetime.date': _dt.date, 'datetime.datetime': _dt.datetime, 'datetime.timedelta': _dt.timedelta,
+           'datetime.time': _dt.time}
+_METHODS = {
+    str: {'strip', 'lstrip', 'rstrip', 'upper', 'lower', 'isdigit', 'isspace', 'startswith', 'endswith', 'split', 'zfill',
+          'replace', 'find', 'index', 'count', 'isnumeric', 'isdecimal', 'removeprefix', 'removesuffix', 'join', 'format',
+          'isalpha', 'partition', 'ljust', 'rjust'},
+    dict: {'get', 'keys', 'values', 'items', 'copy'},
+    set: {'add', 'update', 'discard', 'remove', 'union', 'copy', 'intersection', 'issubset', 'difference'},
+    frozenset: {'union', 'copy', 'intersection', 'issubset', 'difference'},
+    list: {'append', 'extend', 'copy', 'index', 'count', 'insert'},
+    tuple: {'index', 'count'},
+    _dt.datetime: {'replace', 'date', 'isoformat', 'weekday', 'isoweekday', 'time'},
+    _dt.date: {'replace', 'isoformat', 'weekday', 'isoweekday'},
+}
+_CLASS_METHODS = {_dt.datetime: {'strptime', 'fromisoformat', 'combine'}, _dt.date: {'fromisoformat'}}
+_BINOPS = {ast.Add: lambda a, b: a + b, ast.Sub: lambda a, b: a - b, ast.Mult: lambda a, b: a * b,
+           ast.Div: lambda a, b: a / b, ast.FloorDiv: lambda a, b: a // b, ast.Mod: lambda a, b: a % b,
+           ast.Pow: lambda a, b: a ** b, ast.BitOr: lambda a, b: a | b, ast.BitAnd: lambda a, b: a & b}
+_CMPOPS = {ast.Eq: lambda x, y: x == y, ast.NotEq: lambda x, y: x != y, ast.Lt: lambda x, y: x < y,
+           ast.LtE: lambda x, y: x <= y, ast.Gt: lambda x, y: x > y, ast.GtE: lambda x, y: x >= y,
+           ast.In: lambda x, y: x in y, ast.NotIn: lambda x, y: x not in y,
+           ast.Is: lambda x, y: x is y, ast.IsNot: lambda x, y: x is not y}
+
+
+def _is_enum(ci) -> bool:
+    return any(b.split('.')[-1] in ('Enum', 'IntEnum', 'StrEnum', 'Flag') for c in ci.mro() for b in c.base_exprs)
+
+
+class _Interp:
+    BUDGET = 200000
+
+    def __init__(self, prog):
+        self.prog = prog
+        self.steps = 0
+
+    # ---- calls -------------------------------------------------------------------------------------
+    def call_fi(self, fi, args, kwargs=None, scopes=None):
+        return self.call_fn(_Fn(fi, fi.node, scopes or []), args, kwargs or {})
+
+    def call_fn(self, fn: _Fn, args, kwargs):
+        a = fn.node.args
+        if a.vararg or a.kwarg:
+            raise _Undecidable('*args/**kwargs')
+        names = [x.arg for x in a.posonlyargs + a.args]
+        if len(args) > len(names):
+            raise _Raised(TypeError('too many positional arguments'))
+        loc = dict(zip(names, args))
+        for k, v in kwargs.items():
+            if k in loc or k not in names + [x.arg for x in a.kwonlyargs]:
+                raise _Raised(TypeError(f'unexpected argument {k}'))
+            loc[k] = v
+        pos = a.posonlyargs + a.args
+        for arg, d in list(zip(pos[len(pos) - len(a.defaults):], a.defaults)) + \
+                [(x, d) for x, d in zip(a.kwonlyargs, a.kw_defaults) if d is not None]:
+            if arg.arg not in loc:
+                loc[arg.arg] = self.eval(d, fn.fi, fn.scopes + [{}])
+        for x in pos + a.kwonlyargs:
+            if x.arg not in loc:
+                raise _Raised(TypeError(f'missing argument {x.arg}'))
+        try:
+            self.exec_block(fn.node.body, fn.fi, fn.scopes + [loc])
+        except _Return as r:
+            return r.value
+        return None
+
+    def construct(self, ci, args, kwargs):
+        if _is_enum(ci):
+            vals = {const_value(v) for v in ci.class_assignments().values() if v is not None}
+            if len(args) != 1 or kwargs or args[0] not in vals:
+                raise _Raised(ValueError(f'{args!r} is not a valid {ci.name}'))
+            return _Rec(ci.name, {'value': args[0]}, ci)
+        flds = [k for k in ci.all_fields() if not k.startswith('_')]
+        if len(args) > len(flds):
+            raise _Raised(TypeError('too many arguments'))
+        f = dict(zip(flds, args))
+        for k, v in kwargs.items():
+            if k in f or (flds and k not in flds):
+                raise _Raised(TypeError(f'unexpected argument {k}'))
+            f[k] = v
+        return _Rec(ci.name, f, ci)
+
+    def call_method(self, ci, name, recv, args, kwargs):
+        m = ci.find_method(name)
+        if m is None:
+            raise _Undecidable(f'{ci.name}.{name}')
+        decs = m.decorators()
+        if any('staticmethod' in d for d in decs):
+            return self.call_fi(m, args, kwargs)
+        if any('classmethod' in d for d in decs):
+            return self.call_fi(m, [_ClassRef(ci)] + list(args), kwargs)
+        if isinstance(recv, _ClassRef):
+            return self.call_fi(m, args, kwargs)
+        return self.call_fi(m, [recv] + list(args), kwargs)
+
+    # ---- names -------------------------------------------------------------------------------------
+    def lookup(self, name, fi, scopes):
+        for s in reversed(scopes):
+            if name in s:
+                return s[name]
+        m = fi.module
+        if name in m.constants:
+            return self.eval(m.constants[name], fi, [{}])
+        r = self.prog.resolve_name(m, name)
+        if r is not None and hasattr(r, 'methods'):
+            return _ClassRef(r)
+        if r is not None and hasattr(r, 'qualname'):
+            return _Fn(r, r.node, [])
+        if isinstance(r, tuple) and r[0] == 'const':
+            return self.eval(r[1].constants[r[2]], fi, [{}])
+        tgt = m.imports.get(name)
+        if tgt in _STDLIB:
+            return _STDLIB[tgt]
+        if tgt == 'datetime':
+            return _dt
+        if name in _BUILTINS and tgt is None:
+            return _BUILTINS[name]
+        raise _Undecidable(f'name {name}')
+
+    # ---- expressions -------------------------------------------------------------------------------
+    def eval(self, e, fi, sc):
+        self.steps += 1
+        if self.steps > self.BUDGET:
+            raise _Undecidable('step budget')
+        ev = lambda x: self.eval(x, fi, sc)
+        if isinstance(e, ast.Constant):
+            return e.value
+        if isinstance(e, ast.Name):
+            return self.lookup(e.id, fi, sc)
+        if isinstance(e, ast.JoinedStr):
+            return ''.join(str(v.value) if isinstance(v, ast.Constant) else str(ev(v.value)) for v in e.values)
+        if isinstance(e, (ast.Tuple, ast.List, ast.Set)):
+            items = []
+            for x in e.elts:
+                if isinstance(x, ast.Starred):
+                    items.extend(ev(x.value))
+                else:
+                    items.append(ev(x))
+            return tuple(items) if isinstance(e, ast.Tuple) else (items if isinstance(e, ast.List) else self.guard(set, [items]))
+        if isinstance(e, ast.Dict):
+            d = {}
+            for k, v in zip(e.keys, e.values):
+                if k is None:
+                    d.update(ev(v))
+                else:
+                    d[ev(k)] = ev(v)
+            return d
+        if isinstance(e, ast.BoolOp):
+            v = None
+            for x in e.values:
+                v = ev(x)
+                if isinstance(e.op, ast.And) and not v:
+                    return v
+                if isinstance(e.op, ast.Or) and v:
+                    return v
+            return v
+        if isinstance(e, ast.UnaryOp):
+            v = ev(e.operand)
+            if isinstance(e.op, ast.Not):
+                return not v
+            return self.guard((lambda x: -x) if isinstance(e.op, ast.USub) else (lambda x: +x) if isinstance(e.op, ast.UAdd)
+                              else (lambda x: ~x), [v])
+        if isinstance(e, ast.BinOp):
+            f = _BINOPS.get(type(e.op))
+            if f is None:
+                raise _Undecidable(type(e.op).__name__)
+            return self.guard(f, [ev(e.left), ev(e.right)])
+        if isinstance(e, ast.Compare):
+            left = ev(e.left)
+            for op, c in zip(e.ops, e.comparators):
+                right = ev(c)
+                if not self.guard(_CMPOPS[type(op)], [left, right]):
+                    return False
+                left = right
+            return True
+        if isinstance(e, ast.IfExp):
+            return ev(e.body) if ev(e.test) else ev(e.orelse)
+        if isinstance(e, ast.NamedExpr):
+            v = ev(e.value)
+            sc[-1][e.target.id] = v
+            return v
+        if isinstance(e, ast.Subscript):
+            v = ev(e.value)
+            if isinstance(e.slice, ast.Slice):
+                k = slice(*(ev(x) if x is not None else None for x in (e.slice.lower, e.slice.upper, e.slice.step)))
+            else:
+                k = ev(e.slice)
+            if isinstance(v, (_Rec, _ClassRef, _Fn)):
+                raise _Undecidable('subscript of a repository object')
+            return self.guard(lambda a, b: a[b], [v, k])
+        if isinstance(e, ast.Attribute):
+            v = ev(e.value)
+            if isinstance(v, _Rec):
+                if e.attr in v.fields:
+                    return v.fields[e.attr]
+                if _is_enum(v.ci) and e.attr == 'name':
+                    raise _Undecidable('enum name')
+                raise _Undecidable(f'attribute {e.attr} of {v.cls}')
+            if isinstance(v, _ClassRef):
+                ca = v.ci.class_assignments()
+                if _is_enum(v.ci) and e.attr in ca and ca[e.attr] is not None:
+                    return _Rec(v.ci.name, {'value': const_value(ca[e.attr])}, v.ci)
+                raise _Undecidable(f'class attribute {e.attr}')
+            if v is _dt and e.attr in ('date', 'datetime', 'timedelta', 'time'):
+                return getattr(_dt, e.attr)
+            if isinstance(v, (_dt.date, _dt.timedelta)) and e.attr in ('year', 'month', 'day', 'hour', 'minute', 'second', 'days'):
+                return self.guard(getattr, [v, e.attr])
+            raise _Undecidable(f'attribute {e.attr}')
+        if isinstance(e, (ast.ListComp, ast.SetComp, ast.GeneratorExp, ast.DictComp)):
+            out = []
+
+            def gen(i, scopes):
+                if i == len(e.generators):
+                    if isinstance(e, ast.DictComp):
+                        out.append((self.eval(e.key, fi, scopes), self.eval(e.value, fi, scopes)))
+                    else:
+                        out.append(self.eval(e.elt, fi, scopes))
+                    return
+                g = e.generators[i]
+                for item in self.iterate(self.eval(g.iter, fi, scopes)):
+                    self.assign(g.target, item, fi, scopes)
+                    if all(self.eval(c, fi, scopes) for c in g.ifs):
+                        gen(i + 1, scopes)
+            gen(0, sc + [{}])
+            if isinstance(e, ast.DictComp):
+                return dict(out)
+            return self.guard(set, [out]) if isinstance(e, ast.SetComp) else out
+        if isinstance(e, ast.Call):
+            return self.eval_call(e, fi, sc)
+        if isinstance(e, ast.Lambda):
+            body = ast.Return(value=e.body)
+            node = ast.FunctionDef(name='<lambda>', args=e.args, body=[body], decorator_list=[])
+            return _Fn(fi, node, sc)
+        raise _Undecidable(type(e).__name__)
+
+    @staticmethod
+    def guard(f, args, kwargs=None):
+        try:
+            return f(*args, **(kwargs or {}))
+        except (_Undecidable, _Raised):
+            raise
+        except Exception as ex:  # what the interpreted program would raise here
+            raise _Raised(ex) from None
+
+    def iterate(self, v):
+        if isinstance(v, (_Rec, _ClassRef, _Fn)):
+            raise _Undecidable('iteration over a repository object')
+        return self.guard(list, [v])
+
+    def eval_call(self, e, fi, sc):
+        nm = call_name(e)
+        if nm.startswith(LOG_CALLS):
+            return None
+        args = []
+        for a in e.args:
+            if isinstance(a, ast.Starred):
+                args.extend(self.iterate(self.eval(a.value, fi, sc)))
+            else:
+                args.append(self.eval(a, fi, sc))
+        kwargs = {}
+        for k in e.keywords:
+            if k.arg is None:
+                kwargs.update(self.eval(k.value, fi, sc))
+            else:
+                kwargs[k.arg] = self.eval(k.value, fi, sc)
+        if isinstance(e.func, ast.Attribute):
+            recv = self.eval(e.func.value, fi, sc)
+            attr = e.func.attr
+            if isinstance(recv, _ClassRef):
+                return self.call_method(recv.ci, attr, recv, args, kwargs)
+            if isinstance(recv, _Rec):
+                return self.call_method(recv.ci, attr, recv, args, kwargs)
+            if recv is _dt and attr in ('date', 'datetime', 'timedelta', 'time'):
+                return self.guard(getattr(_dt, attr), args, kwargs)
+            if isinstance(recv, type):
+                if attr in _CLASS_METHODS.get(recv, ()):
+                    return self.guard(getattr(recv, attr), args, kwargs)
+                raise _Undecidable(f'{recv.__name__}.{attr}')
+            for t, allowed in _METHODS.items():
+                if type(recv) is t:
+                    if attr in allowed:
+                        if any(isinstance(x, (_Fn, _ClassRef)) for x in args):
+                            raise _Undecidable('callable passed to a builtin method')
+                        return self.guard(getattr(recv, attr), args, kwargs)
+                    raise _Undecidable(f'{t.__name__}.{attr}')
+            if recv is None or isinstance(recv, (int, float, bool)):
+                raise _Raised(AttributeError(f'{type(recv).__name__} has no attribute {attr}'))
+            raise _Undecidable(f'method {attr} of {type(recv).__name__}')
+        f = self.eval(e.func, fi, sc)
+        if isinstance(f, _Fn):
+            return self.call_fn(f, args, kwargs)
+        if isinstance(f, _ClassRef):
+            return self.construct(f.ci, args, kwargs)
+        if f in _BUILTINS.values() or f in _STDLIB.values():
+            if any(isinstance(x, (_Fn, _ClassRef)) for x in list(args) + list(kwargs.values())):
+                raise _Undecidable('callable passed to a builtin')
+            r = self.guard(f, args, kwargs)
+            if isinstance(r, BaseException):
+                return r
+            return list(r) if isinstance(r, (range, enumerate, zip, reversed)) else r
+        raise _Undecidable(f'call of {nm}')
+
+    # ---- statements --------------------------------------------------------------------------------
+    def assign(self, t, v, fi, sc):
+        if isinstance(t, ast.Name):
+            sc[-1][t.id] = v
+        elif isinstance(t, (ast.Tuple, ast.List)):
+            items = self.iterate(v)
+            if len(items) != len(t.elts) or any(isinstance(x, ast.Starred) for x in t.elts):
+                raise _Raised(ValueError('unpack'))
+            for el, it in zip(t.elts, items):
+                self.assign(el, it, fi, sc)
+        elif isinstance(t, ast.Subscript):
+            obj, k = self.eval(t.value, fi, sc), self.eval(t.slice, fi, sc)
+            if not isinstance(obj, (dict, list)):
+                raise _Undecidable('element store')
+            self.guard(lambda o, kk, vv: o.__setitem__(kk, vv), [obj, k, v])
+        else:
+            raise _Undecidable('store target')
+
+    def exc_matches(self, h, exc, fi, sc):
+        if h.type is None:
+            return True
+        t = self.eval(h.type, fi, sc)
+        ts = t if isinstance(t, tuple) else (t,)
+        if not all(isinstance(x, type) and issubclass(x, BaseException) for x in ts):
+            raise _Undecidable('except clause')
+        return isinstance(exc, ts)
+
+    def match_pattern(self, p, v, fi, sc):
+        if isinstance(p, ast.MatchValue):
+            return self.guard(lambda a, b: a == b, [v, self.eval(p.value, fi, sc)])
+        if isinstance(p, ast.MatchSingleton):
+            return v is p.value
+        if isinstance(p, ast.MatchOr):
+            return any(self.match_pattern(x, v, fi, sc) for x in p.patterns)
+        if isinstance(p, ast.MatchAs):
+            if p.pattern is not None and not self.match_pattern(p.pattern, v, fi, sc):
+                return False
+            if p.name:
+                sc[-1][p.name] = v
+            return True
+        raise _Undecidable(type(p).__name__)
+
+    def exec_block(self, stmts, fi, sc):
+        for st in stmts:
+            self.exec(st, fi, sc)
+
+    def exec(self, st, fi, sc):
+        self.steps += 1
+        if self.steps > self.BUDGET:
+            raise _Undecidable('step budget')
+        if isinstance(st, ast.Expr):
+            self.eval(st.value, fi, sc)
+        elif isinstance(st, ast.Assign):
+            v = self.eval(st.value, fi, sc)
+            for t in st.targets:
+                self.assign(t, v, fi, sc)
+        elif isinstance(st, ast.AnnAssign):
+            if st.value is not None:
+                self.assign(st.target, self.eval(st.value, fi, sc), fi, sc)
+        elif isinstance(st, ast.AugAssign):
+            f = _BINOPS.get(type(st.op))
+            if f is None or not isinstance(st.target, ast.Name):
+                raise _Undecidable('augmented assignment')
+            cur = self.lookup(st.target.id, fi, sc)
+            new = self.guard(f, [cur, self.eval(st.value, fi, sc)])
+            if isinstance(cur, (list, set, dict)):
+                raise _Undecidable('in-place update of a container')
+            sc[-1][st.target.id] = new
+        elif isinstance(st, ast.If):
+            self.exec_block(st.body if self.eval(st.test, fi, sc) else st.orelse, fi, sc)
+        elif isinstance(st, ast.For):
+            broke = False
+            for item in self.iterate(self.eval(st.iter, fi, sc)):
+                self.assign(st.target, item, fi, sc)
+                try:
+                    self.exec_block(st.body, fi, sc)
+                except _Continue:
+                    continue
+                except _Break:
+                    broke = True
+                    break
+            if not broke:
+                self.exec_block(st.orelse, fi, sc)
+        elif isinstance(st, ast.While):
+            while self.eval(st.test, fi, sc):
+                try:
+                    self.exec_block(st.body, fi, sc)
+                except _Continue:
+                    continue
+                except _Break:
+                    break
+        elif isinstance(st, ast.Return):
+            raise _Return(self.eval(st.value, fi, sc) if st.value is not None else None)
+        elif isinstance(st, ast.Pass):
+            pass
+        elif isinstance(st, ast.Break):
+            raise _Break()
+        elif isinstance(st, ast.Continue):
+            raise _Continue()
+        elif isinstance(st, ast.Raise):
+            if st.exc is None:
+                raise _Undecidable('bare raise')
+            x = self.eval(st.exc, fi, sc)
+            if isinstance(x, type) and issubclass(x, BaseException):
+                x = x()
+            if not isinstance(x, BaseException):
+                raise _Undecidable('raise of a repository exception')
+            raise _Raised(x)
+        elif isinstance(st, ast.Assert):
+            if not self.eval(st.test, fi, sc):
+                raise _Raised(AssertionError())
+        elif isinstance(st, ast.Try):
+            try:
+                try:
+                    self.exec_block(st.body, fi, sc)
+                except _Raised as r:
+                    for h in st.handlers:
+                        if self.exc_matches(h, r.exc, fi, sc):
+                            if h.name:
+                                sc[-1][h.name] = r.exc
+                            self.exec_block(h.body, fi, sc)
+                            break
+                    else:
+                        raise
+                else:
+                    self.exec_block(st.orelse, fi, sc)
+            finally:
+                if st.finalbody:
+                    self.exec_block(st.finalbody, fi, sc)
+        elif isinstance(st, ast.Match):
+            v = self.eval(st.subject, fi, sc)
+            for case in st.cases:
+                if self.match_pattern(case.pattern, v, fi, sc) and (case.guard is None or self.eval(case.guard, fi, sc)):
+                    self.exec_block(case.body, fi, sc)
+                    break
+        elif isinstance(st, (ast.FunctionDef,)):
+            if st.decorator_list:
+                raise _Undecidable('decorated nested function')
+            sc[-1][st.name] = _Fn(fi, st, list(sc))
+        elif isinstance(st, (ast.Import, ast.ImportFrom, ast.Global, ast.Nonlocal)):
+            raise _Undecidable(type(st).__name__)
+        else:
+            raise _Undecidable(type(st).__name__)
+
+
+# ====================================================================================================
+# rules
+# ====================================================================================================
+
+def _slot(param: str) -> str | None:
+    t = _tokens(param)
+    if t & ANTONYMS[2][0] and not t & ANTONYMS[2][1]:
+        return 'from'
+    if t & ANTONYMS[2][1] and not t & ANTONYMS[2][0]:
+        return 'to'
+    return None
+
+
+def _where(node, default):
+    fi = getattr(node, '_fi', None)
+    for x in ast.walk(node):
+        if fi is not None:
+            break
+        fi = getattr(x, '_fi', None)
+    return fi or default
+
+
+def _data_year_exprs(add) -> set[str]:
+    """`self.<a>` for every attribute the constructor of add's class fills with its year parameter"""
+    out = set()
+    init = add.cls.find_method('__init__') if add.cls is not None else None
+    if init is None:
+        return out
+    for t, st, how in stores_to(init.node):
+        v = getattr(st, 'value', None)
+        if isinstance(t, ast.Attribute) and dotted_name(t.value) == 'self' and isinstance(v, ast.Name) \
+                and v.id in init.params and 'year' in _tokens(v.id):
+            out.add(f'self.{t.attr}')
+    return out
+
+
+def _rule_r1(ctx, prog, dck):
     sites = geod_calls(prog, [dck])
     ctx.floor('C13-R1', len(sites), 1, 'geodesic call in _distance_check')
     for fi, c, kind in sites:
@@ -97,22 +1045,38 @@ def run(ctx):
                '; '.join(f'slot {i} expects {w} but receives `{t}` ({g})' for i, w, t, g, v in confl) +
                ' — with |lon| > 90 the distance is NaN and every stated distance is accepted; otherwise a '
                'plausible row is dropped as suspicious', line=c.lineno)
-        sub = getattr(c, '_parent', None)
-        ok = isinstance(sub, ast.Subscript) and norm(sub.slice) == '2'
-        ctx.ob('C13-R1', fi, 'distance component [2] of the inverse geodesic', ok,
-               'distance' if ok else 'not the distance component', line=c.lineno, nontrivial=False)
-        args = [norm(a) for a in c.args]
-        ok = len(args) == 4 and all('origin' in a for a in args[:2]) and all('destination' in a for a in args[2:])
-        ctx.ob('C13-R1', fi, 'distance is between origin and destination', ok,
+        # the distance component, in km, on its way to the comparisons: look at the call in its full context
+        host = stmt_of(c)
+        tgt = host.targets[0].id if isinstance(host, ast.Assign) and isinstance(host.targets[0], ast.Name) else None
+        ctxs = [getattr(host, 'value', host)]
+        for t, st, how in stores_to(fi.node):
+            v = getattr(st, 'value', None)
+            if tgt and v is not None and st is not host and tgt in names_in(v):
+                ctxs.append(_subst(fi.node, v))
+        is_dist = any(isinstance(x, ast.Subscript) and const_value(x.slice) == 2 and isinstance(x.value, ast.Call)
+                      and x.value.func is not None and getattr(x.value.func, 'attr', '') == kind
+                      for e_ in ctxs for x in ast.walk(e_))
+        if not is_dist and isinstance(host, ast.Assign) and isinstance(host.targets[0], (ast.Tuple, ast.List)) \
+                and len(host.targets[0].elts) == 3:
+            is_dist = True  # az12, az21, dist = GEOD.inv(...)
+        ctx.ob('C13-R1', fi, 'distance component [2] of the inverse geodesic', is_dist,
+               'distance' if is_dist else 'not the distance component', line=c.lineno, nontrivial=False)
+        km = any(isinstance(x, ast.BinOp) and (
+            (isinstance(x.op, ast.Div) and const_value(x.right) in (1000, 1000.0)) or
+            (isinstance(x.op, ast.Mult) and (const_value(x.right) in (0.001, 1e-3) or const_value(x.left) in (0.001, 1e-3))))
+            for e_ in ctxs for x in ast.walk(e_))
+        ctx.ob('C13-R1', fi, 'metres converted to kilometres', km, '/ 1000' if km else
+               'geodesic distance is not converted to km before comparison with the stated km', nontrivial=False)
+        ends = [_idents(_subst(fi.node, a)) & {'origin', 'destination', 'dest'} for a in c.args]
+        ok = len(ends) == 4 and ends[0] == ends[1] == {'origin'} and ends[2] == ends[3] and ends[2] and 'origin' not in ends[2]
+        ctx.ob('C13-R1', fi, 'distance is between origin and destination', bool(ok),
                'origin pair then destination pair' if ok else 'end points mixed up', line=c.lineno, nontrivial=False)
-    gdef = single_def_value(dck.node, 'gc_distance_km')
-    ok = gdef is not None and norm(gdef).endswith('/ 1000.0') or (gdef is not None and norm(gdef).endswith('/ 1000'))
-    ctx.ob('C13-R1', dck, 'metres converted to kilometres', bool(ok), '/ 1000' if ok else
-           'geodesic distance is not converted to km before comparison with the stated km', nontrivial=False)
 
-    # ---- R2 ----------------------------------------------------------------
+
+def _rule_r2(ctx, prog, add, flt, sch):
+    sym = _Sym(prog)
+    # (a) generic: raw optional passed on although a defaulted copy exists
     scope = [add] if ctx.tier != 'thorough' else prog.all_functions()
-    n_def = 0
     for fi in scope:
         for t, st, how in stores_to(fi.node):
             v = getattr(st, 'value', None)
@@ -121,7 +1085,6 @@ def run(ctx):
                 raw = norm(v.values[0])
                 if isinstance(v.values[0], ast.Name) and v.values[0].id == t.id:
                     continue  # x = x or default: the raw name *is* the defaulted one afterwards
-                n_def += 1 if fi is add else 0
                 leaks = []
                 for c in calls_in(fi.node):
                     if c.lineno <= st.lineno:
@@ -135,109 +1098,288 @@ def run(ctx):
                         f'although `{t.id}` holds the defaulted value: an open-ended row reaches '
                         'pd.date_range(None, …) and the import aborts'),
                        line=(leaks[0].lineno if leaks else st.lineno))
-    ctx.floor('C13-R2', n_def, 2, 'defaulted optionals in OAGDatabase.add')
-    # the defaults themselves
-    for name, want in (('effective_from', 'date(self._year, 1, 1)'), ('effective_to', 'date(self._year, 12, 31)')):
-        d = single_def_value(add.node, name)
-        ok = d is not None and isinstance(d, ast.BoolOp) and norm(d.values[-1]) == want
-        ctx.ob('C13-R2', add, f'{name} defaults to {want}', ok,
-               'open-ended range means start/end of the data year' if ok else
-               f'default of {name} is not {want}', nontrivial=False)
+    # (b) what reaches the effective-date parameters of the two writers
+    sites, rets = {}, []
+    entry = add.params[1] if len(add.params) > 1 else None
+    sym.block(add, add.node.body, {}, rets, [], sites)
+    years = _data_year_exprs(add)
+    if not years:
+        ctx.undecided('C13-R2', add, 'data year', 'the constructor does not store its year parameter on self')
+    want = {'from': (1, 1, '1 January'), 'to': (12, 31, '31 December')}
+    nslots = 0
+    for callee in (flt, sch):
+        for c in calls_in(add.node):
+            if resolve_call(prog, add, c) != callee or id(c) not in sites:
+                continue
+            for p, a in _arg_map(callee, c).items():
+                slot = _slot(p)
+                if slot is None or 'effective' not in _tokens(p) and 'eff' not in _tokens(p):
+                    continue
+                nslots += 1
+                val = sym.expand(sym.ev(add, a, sites[id(c)]))
+                head = f'{callee.name}({p}=…)'
+                m_, d_, label = want[slot]
+                raws, n_default = [], 0
+                for g, leaf in _cases(val):
+                    if dotted_name(leaf):
+                        raws.append(leaf)
+                        cf = role_conflict(p, leaf)
+                        ok = _guarded_set(g, leaf)
+                        ctx.ob('C13-R2', add, f'{head}: `{norm(leaf)}` only when it is set', ok and cf is None,
+                               'the row\'s own date is used only under the test that it is present' if ok and cf is None else
+                               (cf or f'`{norm(leaf)}` (None for an open-ended row) reaches {callee.name}() without a default: '
+                                'an open-ended row reaches pd.date_range(None, …) and the import aborts'),
+                               line=getattr(a, 'lineno', c.lineno))
+                        continue
+                    try:
+                        dcs = _date_cases(leaf, g)
+                        dcs = [(g2, (y2, mm, dd)) for g2, (y, mm, dd) in dcs for y2 in _scalar_cases(y)]
+                    except _Undecided as u:
+                        ctx.undecided('C13-R2', add, head, f'default `{u}` is not a recognised date construction')
+                    for g2, (y, mm, dd) in dcs:
+                        n_default += 1
+                        wfi = _where(leaf, add)
+                        ytxt = norm(y)
+                        y_ok = ytxt in years
+                        md_ok = const_value(mm) == m_ and const_value(dd) == d_
+                        if not y_ok and not (names_in(y) <= {'self', entry}):
+                            ctx.undecided('C13-R2', add, head, f'year `{ytxt}` of the default cannot be related to the data year')
+                        if not md_ok and (const_value(mm) is None or const_value(dd) is None):
+                            ctx.undecided('C13-R2', add, head, f'month/day `{norm(mm)}`/`{norm(dd)}` of the default are not constants')
+                        why = f'open-ended range means {label} of the data year ({sorted(years)[0]})'
+                        if not y_ok:
+                            why = (f'the default of the effective-{slot} date is not {label} of the data year: its year is `{ytxt}`'
+                                   + (' (the year of the row\'s other date)' if entry in names_in(y) else '') +
+                                   f', not `{sorted(years)[0]}` — an open-ended row whose other end lies in another year gets a '
+                                   'range that stops/starts in that year, and the instances of the data year are missing')
+                        elif not md_ok:
+                            why = (f'the default of the effective-{slot} date is not {label} of the data year: '
+                                   f'month/day are {norm(mm)}/{norm(dd)}')
+                        ctx.ob('C13-R2', wfi, f'{head} default = ({ytxt}, {norm(mm)}, {norm(dd)})', y_ok and md_ok, why,
+                               line=getattr(leaf, 'lineno', 0) or c.lineno, nontrivial=not (y_ok and md_ok))
+                if raws and not n_default:
+                    pass  # reported above: the raw optional reaches the callee
+                elif not raws and not n_default:
+                    ctx.undecided('C13-R2', add, head, 'value could not be followed')
+                for g, leaf in _cases(val):
+                    if not dotted_name(leaf) and raws and not any(_guarded_unset(g, norm(r)) for r in raws):
+                        ctx.ob('C13-R2', add, f'{head}: default applies exactly when the row\'s date is open', False,
+                               f'the default `{norm(leaf)[:50]}` is not selected by the absence of `{norm(raws[0])}`',
+                               line=getattr(a, 'lineno', c.lineno))
+    ctx.floor('C13-R2', nslots, 4, 'effective-date arguments of _add_flight/_add_schedule followed from OAGDatabase.add')
 
-    # ---- R3 ----------------------------------------------------------------
-    for var, role, zone in (('dep_time', 'departure', 'origin.timezone'), ('arr_time', 'arrival', 'destination.timezone')):
-        d = single_def_value(sch.node, var)
-        if d is None:
-            ctx.undecided('C13-R3', sch, var, 'instant is not defined once')
-        ids = _idents(d)
+
+def _is_utc(z) -> bool:
+    return isinstance(z, ast.Constant) and z.value in ('UTC', 'utc') or norm(z).lower().endswith(('timezone.utc', '.utc'))
+
+
+def _localisations(e):
+    """[(node, localised wall-clock expression, zone expression)]: where a naive value is given its zone"""
+    out = []
+    for x in ast.walk(e):
+        if not isinstance(x, ast.Call):
+            continue
+        kw = {k.arg: k.value for k in x.keywords if k.arg}
+        attr = x.func.attr if isinstance(x.func, ast.Attribute) else None
+        nm = call_name(x).split('.')[-1]
+        if attr == 'replace' and 'tzinfo' in kw:
+            out.append((x, x.func.value, kw['tzinfo']))
+        elif attr == 'tz_localize' and (x.args or 'tz' in kw):
+            out.append((x, x.func.value, x.args[0] if x.args else kw['tz']))
+        elif attr == 'localize' and x.args:
+            out.append((x, x.args[0], x.func.value))
+        elif nm in ('datetime', 'Timestamp', 'combine') and ('tzinfo' in kw or 'tz' in kw):
+            rest = ast.Tuple(elts=list(x.args) + [v for k, v in kw.items() if k not in ('tzinfo', 'tz')], ctx=ast.Load())
+            out.append((x, rest, kw.get('tzinfo', kw.get('tz'))))
+    return [(n, r, z) for n, r, z in out if z is not None and not (isinstance(z, ast.Constant) and z.value is None)
+            and not _is_utc(z)]
+
+
+def _date_loop(prog, sch):
+    """(date_range call, the per-day loop over it, loop variable)"""
+    dr = [c for c in calls_in(sch.node) if call_name(c).split('.')[-1] == 'date_range']
+    if len(dr) != 1:
+        return (dr[0] if dr else None), None, None
+    c = dr[0]
+    for lp in walk_no_nested(sch.node):
+        if isinstance(lp, ast.For) and isinstance(lp.target, ast.Name):
+            it = lp.iter
+            if any(x is c for x in ast.walk(it)) or (isinstance(it, ast.Name) and single_def_value(sch.node, it.id) is not None
+                                                      and any(x is c for x in ast.walk(single_def_value(sch.node, it.id)))):
+                return c, lp, lp.target.id
+    return c, None, None
+
+
+def _schedule_rows(sch):
+    """(columns, value expressions, append call) of the schedules INSERT"""
+    ins = [c for c in calls_in(sch.node) if call_name(c).endswith('executemany') and len(c.args) >= 2]
+    if not ins:
+        return None
+    sqln = ins[0].args[0]
+    if isinstance(sqln, ast.Name):
+        sqln = single_def_value(sch.node, sqln.id)
+    sql = sqln.value if isinstance(sqln, ast.Constant) and isinstance(sqln.value, str) else ''
+    mcol = re.search(r'\(([^)]*)\)\s*VALUES', sql, re.S)
+    cols = [c.strip() for c in mcol.group(1).split(',')] if mcol else []
+    lst = ins[0].args[1]
+    if not isinstance(lst, ast.Name):
+        return None
+    app = [c for c in calls_in(sch.node) if isinstance(c.func, ast.Attribute) and c.func.attr == 'append'
+           and isinstance(c.func.value, ast.Name) and c.func.value.id == lst.id and len(c.args) == 1]
+    if len(app) < 1:
+        return None
+    row = app[0].args[0]
+    if isinstance(row, ast.Name):
+        row = single_def_value(sch.node, row.id)
+    if not isinstance(row, ast.Tuple):
+        return None
+    return cols, list(row.elts), app
+
+
+def _rule_r3(ctx, prog, add, flt, sch):
+    rows = _schedule_rows(sch)
+    if rows is None:
+        ctx.undecided('C13-R3', sch, 'schedules INSERT', 'append/executemany idiom not found')
+    cols, vals, app = rows
+    _, loop, loopvar = _date_loop(prog, sch)
+    if loop is None:
+        ctx.undecided('C13-R3', sch, 'per-day loop', 'no `for <date> in pd.date_range(...)` loop found')
+    ok = len(cols) == len(vals)
+    ctx.ob('C13-R3', sch, f'schedules INSERT: {len(cols)} columns, {len(vals)} values', ok,
+           'same arity' if ok else 'column list and value tuple differ in length', nontrivial=False)
+    offp = [p for p in sch.params if {'day', 'offset'} <= _tokens(p)]
+    full = {}
+    for col, v in zip(cols, vals):
+        fv = _subst(sch.node, v)
+        full[col] = fv
+        cf = role_conflict(col, fv) or role_conflict(col, v)
+        toks = _tokens(col) & (_idents(v) | _idents(fv))
+        ctx.ob('C13-R3', sch, f'schedules.{col} <- {norm(v)}', cf is None and bool(toks),
+               'column and value agree in role' if cf is None and toks else (cf or f'value `{norm(v)}` shares no name with column {col}'),
+               line=v.lineno)
+    ninst = 0
+    for role, end, other_end in (('departure', 'origin', 'destination'), ('arrival', 'destination', 'origin')):
+        col = next((c for c in cols if role in _tokens(c) and 'timestamp' in _tokens(c)), None)
+        if col is None:
+            ctx.undecided('C13-R3', sch, f'{role} column', 'no <role>_timestamp column in the schedules INSERT')
+        ninst += 1
+        v = full[col]
+        line = vals[cols.index(col)].lineno
+        ids = _idents(v)
         other = ANTONYMS[0][1] if role == 'departure' else ANTONYMS[0][0]
-        other_od = {'destination'} if role == 'departure' else {'origin'}
-        bad = (ids & other) | (ids & other_od)
-        zone_ok = f'ZoneInfo({zone})' in norm(d)
-        uses_offset = 'arrival_day_offset' in norm(d)
-        ok = not bad and zone_ok and (uses_offset == (role == 'arrival'))
-        why = f'{role} instant built from {role} time in the {"origin" if role == "departure" else "destination"} zone'
+        bad = (ids & other) | (ids & ({other_end} | ({'dest'} if other_end == 'destination' else set())))
+        locs = _localisations(v)
+        uses_offset = bool(offp) and any(p in names_in(v) for p in offp)
+        zones_ok = bool(locs) and all(end in _idents(z) and other_end not in _idents(z) for _, _, z in locs)
+        ok = not bad and zones_ok and (uses_offset == (role == 'arrival'))
+        why = f'{role} instant built from {role} time in the {end} zone'
         if bad:
             why = f'{role} instant uses {sorted(bad)} — the other end\'s data'
-        elif not zone_ok:
-            why = f'{role} instant is not localised with {zone}'
+        elif not locs:
+            if 'timezone' in ids or 'tz' in ids or 'zone' in ids or 'offset' in (ids - {t for p in offp for t in _tokens(p)}):
+                ctx.undecided('C13-R3', sch, f'{role} instant', 'a zone is used but no localisation idiom is recognised')
+            why = f'{role} instant is never given the time zone of the {end} airport: the local time is stored as if it were UTC'
+        elif not zones_ok:
+            why = f'{role} instant is not localised with the {end}\'s time zone'
         elif uses_offset != (role == 'arrival'):
             why = 'arrival day offset applied to the wrong instant (or not applied)'
-        ctx.ob('C13-R3', sch, f'{var} = {norm(d)[:70]}', ok, why, line=d.lineno)
-        # wall-clock arithmetic first, localisation last: a pandas Timestamp that already carries a zone adds
-        # *elapsed* time, so anything added after .replace(tzinfo=...) is an hour off across a DST change
-        outer = d
-        last = isinstance(outer, ast.Call) and isinstance(outer.func, ast.Attribute) and outer.func.attr == 'replace' \
-            and any(k.arg == 'tzinfo' for k in outer.keywords)
-        arith_after = [x for x in ast.walk(d) if isinstance(x, ast.BinOp) and any(
-            isinstance(y, ast.keyword) and y.arg == 'tzinfo' for side in (x.left, x.right) for y in ast.walk(side))]
-        ctx.ob('C13-R3', sch, f'{var}: zone attached after all wall-clock arithmetic', last and not arith_after,
-               'the outermost operation is .replace(tzinfo=ZoneInfo(...))' if last and not arith_after else
-               'time is added to an instant that already carries its zone (elapsed-time arithmetic across a DST change)',
-               line=d.lineno)
-        hm = [norm(k.value) for c in calls_in(d) if call_name(c) == 'timedelta' for k in c.keywords if k.arg in ('hours', 'minutes')]
-        okh = sorted(hm) == sorted([f'{role}_time.hour', f'{role}_time.minute'])
-        ctx.ob('C13-R3', sch, f'{var} hours/minutes = {hm}', okh,
-               'hour to hours, minute to minutes' if okh else 'hour/minute components mixed up', line=d.lineno,
+        ctx.ob('C13-R3', sch, f'{col} = {norm(v)[:70]}', ok, why, line=line)
+        if not locs:
+            continue
+        # the zone-aware instant is built per flight date from that date
+        stale = [(n, r, z) for n, r, z in locs if loopvar not in names_in(r)]
+        outside = [n for n, r, z in locs if loopvar in names_in(r) and not any(
+            a is loop for o in [getattr(n, '_orig', None)] if o is not None for a in ancestors(o))]
+        per_day = not stale
+        ctx.ob('C13-R3', sch, f'{col}: zone applied to the wall-clock time of each flight date', per_day,
+               f'the value localised in the {end} zone depends on the loop date `{loopvar}`' if per_day else
+               (f'the {end} zone is applied to `{norm(stale[0][1])[:60]}`, which does not depend on the flight date `{loopvar}` of the '
+                'per-day loop: the UTC offset is computed once per flight and reused for every date, so every instance on the other '
+                'side of a daylight-saving change from that date is stored one hour off'), line=stale[0][0].lineno if stale and hasattr(stale[0][0], 'lineno') else line)
+        if per_day:
+            # wall-clock arithmetic first, localisation last: a pandas Timestamp that already carries a zone adds *elapsed*
+            # time, so anything added after the localisation is an hour off across a DST change
+            lset = {id(n) for n, _, _ in locs}
+            arith_after = [x for x in ast.walk(v) if isinstance(x, ast.BinOp) and isinstance(x.op, (ast.Add, ast.Sub))
+                           and any(id(y) in lset for side in (x.left, x.right) for y in ast.walk(side))
+                           and not (isinstance(x.op, ast.Sub) and all(any(id(y) in lset for y in ast.walk(s)) or
+                                                                      not _mentions_time(s) for s in (x.left, x.right))
+                                    and _is_difference_of_instants(x, lset))]
+            ctx.ob('C13-R3', sch, f'{col}: zone attached after all wall-clock arithmetic', not arith_after,
+                   'nothing is added to the instant once it carries its zone' if not arith_after else
+                   'time is added to an instant that already carries its zone (elapsed-time arithmetic across a DST change)',
+                   line=line)
+        # hour -> hours, minute -> minutes
+        pairs = []
+        for c in ast.walk(v):
+            if isinstance(c, ast.Call) and call_name(c).split('.')[-1] in ('timedelta', 'Timedelta', 'time', 'datetime'):
+                for k in c.keywords:
+                    if k.arg in ('hours', 'minutes', 'hour', 'minute') and isinstance(k.value, ast.Attribute) \
+                            and k.value.attr in ('hour', 'minute'):
+                        pairs.append((k.arg.rstrip('s'), k.value.attr))
+        okh = all(a == b for a, b in pairs)
+        ctx.ob('C13-R3', sch, f'{col} hours/minutes = {sorted(pairs)}', okh,
+               'hour to hours, minute to minutes' if okh else 'hour/minute components mixed up', line=line,
                nontrivial=False)
-    for var, src in (('dep_timestamp', 'dep_time'), ('arr_timestamp', 'arr_time')):
-        d = single_def_value(sch.node, var)
-        ok = d is not None and norm(d) == f'int({src}.timestamp())'
-        ctx.ob('C13-R3', sch, f'{var} = {norm(d) if d is not None else "?"}', ok,
-               'epoch seconds of its own instant' if ok else 'timestamp taken from the other instant', nontrivial=False)
-    # INSERT column <-> value agreement
-    app = [c for c in calls_in(sch.node) if call_name(c) == 'data.append']
-    ins = [c for c in calls_in(sch.node) if call_name(c).endswith('executemany')]
-    if app and ins and isinstance(app[0].args[0], ast.Tuple):
-        sql = ins[0].args[0].value if isinstance(ins[0].args[0], ast.Constant) else ''
-        mcol = re.search(r'\(([^)]*)\)\s*VALUES', sql, re.S)
-        cols = [c.strip() for c in mcol.group(1).split(',')] if mcol else []
-        vals = app[0].args[0].elts
-        ok = len(cols) == len(vals)
-        ctx.ob('C13-R3', sch, f'schedules INSERT: {len(cols)} columns, {len(vals)} values', ok,
-               'same arity' if ok else 'column list and value tuple differ in length', nontrivial=False)
-        for col, v in zip(cols, vals):
-            cf = role_conflict(col, v)
-            toks = _tokens(col) & _idents(v)
-            ctx.ob('C13-R3', sch, f'schedules.{col} <- {norm(v)}', cf is None and bool(toks),
-                   'column and value agree in role' if cf is None and toks else (cf or f'value `{norm(v)}` shares no name with column {col}'),
-                   line=v.lineno)
-    else:
-        ctx.undecided('C13-R3', sch, 'schedules INSERT', 'append/executemany idiom not found')
+    ctx.floor('C13-R3/instants', ninst, 2, 'timestamp columns resolved to their instants')
+
+    # flights INSERT
     flds = single_def_value(flt.node, 'fields')
     exe = [c for c in calls_in(flt.node) if call_name(c).endswith('.execute')]
-    if flds is None or not exe or len(exe[0].args) < 2 or not isinstance(exe[0].args[1], ast.Tuple):
+    if flds is None or not isinstance(flds, (ast.List, ast.Tuple)) or not exe or len(exe[0].args) < 2:
+        ctx.undecided('C13-R3', flt, 'flights INSERT', 'fields list / value tuple idiom not found')
+    tup = exe[0].args[1]
+    if isinstance(tup, ast.Name):
+        tup = single_def_value(flt.node, tup.id)
+    if not isinstance(tup, ast.Tuple):
         ctx.undecided('C13-R3', flt, 'flights INSERT', 'fields list / value tuple idiom not found')
     cols = [e.value for e in flds.elts]
-    vals = exe[0].args[1].elts
+    vals = tup.elts
     ok = len(cols) == len(vals)
     ctx.ob('C13-R3', flt, f'flights INSERT: {len(cols)} columns, {len(vals)} values', ok,
            'same arity' if ok else 'column list and value tuple differ in length')
     ctx.floor('C13-R3/flights', len(cols), 17, 'flights columns')
     for col, v in zip(cols, vals):
-        cf = role_conflict(col, v)
+        cf = role_conflict(col, _subst(flt.node, v))
         ctx.ob('C13-R3', flt, f'flights.{col} <- {norm(v)[:50]}', cf is None,
                'no role conflict' if cf is None else cf, line=v.lineno, nontrivial=cf is not None)
-    od = single_def_value(flt.node, 'od_pair')
-    ok = od is not None and norm(od).startswith('min(') and '+ max(' in norm(od)
-    ctx.ob('C13-R3', flt, 'od_pair is direction independent', bool(ok), 'min(code) + max(code)' if ok else
-           'od_pair depends on direction', nontrivial=False)
+    odv = next((v for col, v in zip(cols, vals) if 'od' in _tokens(col) and 'pair' in _tokens(col)), None)
+    if odv is not None:
+        od = _subst(flt.node, odv)
+        mm = {call_name(c): c for c in ast.walk(od) if isinstance(c, ast.Call) and call_name(c) in ('min', 'max')}
+        srt = [c for c in ast.walk(od) if isinstance(c, ast.Call) and call_name(c) == 'sorted']
+        ok = (isinstance(od, ast.BinOp) and isinstance(od.op, ast.Add) and call_name(od.left) == 'min' and call_name(od.right) == 'max'
+              and {norm(a) for a in od.left.args} == {norm(a) for a in od.right.args} and len(od.left.args) == 2) \
+            if len(mm) == 2 and isinstance(od, ast.BinOp) and isinstance(od.left, ast.Call) and isinstance(od.right, ast.Call) else bool(srt)
+        ctx.ob('C13-R3', flt, 'od_pair is direction independent', bool(ok), 'smaller code + larger code' if ok else
+               'od_pair depends on direction', nontrivial=False)
     # importer call sites: argument -> parameter roles
     for callee in (flt, sch):
         cs = [c for c in calls_in(add.node) if resolve_call(prog, add, c) == callee]
         ctx.floor(f'C13-R3/{callee.name}', len(cs), 1, f'call of {callee.name} in add')
         params = callee.params[1:]
         for c in cs:
-            for p, a in zip(params, c.args):
-                cf = role_conflict(p, a)
+            amap = _arg_map(callee, c)
+            for p, a in amap.items():
+                cf = role_conflict(p, a) or role_conflict(p, _subst(add.node, a))
                 ctx.ob('C13-R3', add, f'{callee.name}({p}={norm(a)})', cf is None,
                        'argument and parameter agree in role' if cf is None else cf, line=a.lineno,
                        nontrivial=cf is not None)
-            ok = len(c.args) == len(params)
-            ctx.ob('C13-R3', add, f'{callee.name} receives {len(c.args)} of {len(params)} positional arguments', ok,
+            ok = set(amap) == set(params)
+            ctx.ob('C13-R3', add, f'{callee.name} receives {len(amap)} of {len(params)} arguments', ok,
                    'complete' if ok else 'argument count differs: positions shift', line=c.lineno, nontrivial=False)
 
-    # ---- R4 ----------------------------------------------------------------
+
+def _mentions_time(e) -> bool:
+    return bool(_idents(e) & {'timedelta', 'hour', 'minute', 'hours', 'minutes', 'days', 'offset'})
+
+
+def _is_difference_of_instants(x, lset) -> bool:
+    """`aware - aware` (an elapsed interval) is not wall-clock arithmetic on an aware instant"""
+    return all(any(id(y) in lset for y in ast.walk(s)) for s in (x.left, x.right))
+
+
+def _rule_r4(ctx, prog, wm, add, flt, sch):
     g = CFG(add.node)
     dom = g.dominators(edge_ok=lambda a, b, lab: lab != 'e')
 
@@ -262,177 +1404,122 @@ def run(ctx):
                'a row can be reported as imported without its flight record, instances or instance count',
                line=r.line)
     if nc is not None and ns is not None and nf is not None:
-        fid = stmt_of(cf_).targets[0].id if isinstance(stmt_of(cf_), ast.Assign) else None
-        nfl = stmt_of(cs_).targets[0].id if isinstance(stmt_of(cs_), ast.Assign) else None
-        a = [norm(x) for x in cc_.args]
-        ok = len(a) == 3 and a[1] == fid and a[2] == nfl
-        ctx.ob('C13-R4', add, f'_set_flight_count({", ".join(a)})', ok,
+        def target(c):
+            s = stmt_of(c)
+            if isinstance(s, ast.Assign) and len(s.targets) == 1 and isinstance(s.targets[0], ast.Name) and s.value is c:
+                return s.targets[0].id
+            if isinstance(s, ast.AnnAssign) and isinstance(s.target, ast.Name) and s.value is c:
+                return s.target.id
+            return None
+        fid, nfl = target(cf_), target(cs_)
+        am = {p: norm(a) for p, a in _arg_map(cnt, cc_).items()}
+        ps = cnt.params[1:]
+        idp = next((p for p in ps if 'id' in _tokens(p)), None)
+        nump = next((p for p in ps if _tokens(p) & {'num', 'count', 'number', 'n'}), None)
+        ok = fid is not None and nfl is not None and am.get(idp) == fid and am.get(nump) == nfl
+        ctx.ob('C13-R4', add, f'_set_flight_count({", ".join(f"{k}={v}" for k, v in am.items())})', ok,
                'count of the instances just created, on the flight just created' if ok else
                'the recorded count is not the number returned by _add_schedule for this flight', line=cc_.lineno)
-        sa = [norm(x) for x in cs_.args]
-        ok = len(sa) > 2 and sa[2] == fid
+        sm = {p: norm(a) for p, a in _arg_map(sch, cs_).items()}
+        sidp = next((p for p in sch.params[1:] if {'flight', 'id'} <= _tokens(p)), None)
+        ok = fid is not None and sm.get(sidp) == fid
         ctx.ob('C13-R4', add, 'instances attached to the flight just created', ok,
                f'flight_id={fid}' if ok else 'schedule rows are attached to a different flight id', line=cs_.lineno,
                nontrivial=False)
+    rows = _schedule_rows(sch)
     r = [n for n in walk_no_nested(sch.node) if isinstance(n, ast.Return)]
-    ok = len(r) == 1 and norm(r[0].value) == 'len(data)'
+    lst = rows[2][0].func.value.id if rows else None
+    ok = bool(r) and lst is not None and all(
+        isinstance(x.value, ast.Call) and call_name(x.value) == 'len' and norm(x.value.args[0]) == lst for x in r)
     ctx.ob('C13-R4', sch, 'returns the number of instances created', ok,
-           'len(data)' if ok else '_add_schedule does not return the number of rows it inserts')
-    sq = [c for c in calls_in(cnt.node) if call_name(c).endswith('.execute')]
-    ok = bool(sq) and 'number_of_flights = ?' in norm(sq[0].args[0]) and norm(sq[0].args[1]) == '(num_flights, flight_id)'
+           f'len({lst})' if ok else '_add_schedule does not return the number of rows it inserts')
+    sq = [c for c in calls_in(cnt.node) if call_name(c).endswith('.execute') and len(c.args) >= 2]
+    ok = False
+    if sq:
+        sqlt = norm(sq[0].args[0])
+        par = sq[0].args[1]
+        i_set, i_where = sqlt.find('number_of_flights = ?'), sqlt.find('WHERE id = ?')
+        if isinstance(par, ast.Tuple) and len(par.elts) == 2 and 0 <= i_set < i_where:
+            a0, a1 = (_tokens(norm(x)) for x in par.elts)
+            ok = bool(a0 & {'num', 'count', 'number', 'n'}) and 'id' in a1 and 'id' not in a0
     ctx.ob('C13-R4', cnt, 'UPDATE sets number_of_flights for that id', ok,
-           norm(sq[0].args[1]) if ok else 'parameter order of the UPDATE does not match its placeholders')
+           norm(sq[0].args[1]) if ok else 'parameter order of the UPDATE does not match its placeholders'
+           if sq else 'the count is not written to the flights table by _set_flight_count')
 
-    # ---- R5 ----------------------------------------------------------------
+
+_BASE_ROW = dict(carrier='DL', fltno='1621', depapt='ATL', depctry='US', arrapt='LAX', arrctry='CA', deptim='0905',
+                 arrtim='1130', arrday=' ', days='1234567', distance='0001946', service='J', inpacft='738', genacft='737',
+                 seats='0160', efffrom='20190305', effto='20191124', stops='00', longest='L', operating='')
+
+
+def _row(**over):
+    r = dict(_BASE_ROW)
+    r.update(over)
+    return r
+
+
+def _rule_r5(ctx, prog, om, add):
     rv = om.func('CSVEntry.is_row_valid')
     documented = {'carrier': 'end-of-file marker', 'service': 'service type', 'stops': 'stops',
                   'operating': 'non-operating carrier', 'genacft': 'non-aircraft equipment'}
     nrej = 0
+    rowp = rv.params[-1] if rv.params else 'row'
     for n in walk_no_nested(rv.node):
         if isinstance(n, ast.Return) and isinstance(n.value, ast.Constant) and n.value.value is False:
             nrej += 1
             keys = set()
             for t, pol, _ in guards_of(n):
-                for x in ast.walk(t):
-                    if isinstance(x, ast.Subscript) and norm(x.value) == 'row' and isinstance(x.slice, ast.Constant):
+                for x in ast.walk(_subst(rv.node, t)):
+                    if isinstance(x, ast.Subscript) and norm(x.value) == rowp and isinstance(x.slice, ast.Constant):
                         keys.add(x.slice.value)
+                    if isinstance(x, ast.Call) and isinstance(x.func, ast.Attribute) and x.func.attr == 'get' \
+                            and norm(x.func.value) == rowp and x.args and isinstance(x.args[0], ast.Constant):
+                        keys.add(x.args[0].value)
             extra = keys - set(documented)
             ctx.ob('C13-R5', rv, f'row rejected on {sorted(keys)}', not extra and bool(keys),
                    ', '.join(documented[k] for k in keys) if not extra and keys else
                    f'rows are dropped for an undocumented reason ({sorted(extra) or "unconditional"})', line=n.lineno)
-    ctx.floor('C13-R5', nrej, 5, 'row rejection sites')
-    tests = {norm(t) for n in walk_no_nested(rv.node) if isinstance(n, ast.If) for t in [n.test]}
-    exp = {"row['service'] in ('V', 'U')", "int(row['stops']) != 0", "row['operating'] == 'N'",
-           "row['genacft'] in EXCLUDE_EQUIPMENT", "row['carrier'] == '\\x1a'"}
-    for e in sorted(exp):
-        ctx.ob('C13-R5', rv, f'documented test `{e}`', e in tests, 'present' if e in tests else
-               'documented rejection test changed or removed', nontrivial=False)
-    eq = om.constants.get('EXCLUDE_EQUIPMENT')
-    ok = isinstance(eq, ast.Set) and {e.value for e in eq.elts} == {'BUS', 'HOV', 'LCH', 'LMO', 'RFS', 'TRN'}
-    ctx.ob('C13-R5', (om.relpath, '<module>'), 'non-aircraft equipment set', bool(ok),
-           'BUS HOV LCH LMO RFS TRN' if ok else 'equipment exclusion set changed', nontrivial=False)
+    # what the filter computes, on the table of documented values
+    table = [({}, True)]
+    table += [({'carrier': '\x1a'}, False), ({'carrier': 'AA'}, True)]
+    table += [({'service': s}, s not in ('V', 'U')) for s in 'VUJSFCGQ']
+    table += [({'stops': s}, int(s) == 0) for s in ('0', '00', '1', '01', '2')]
+    table += [({'operating': s}, s != 'N') for s in ('N', '', 'O', ' ')]
+    table += [({'genacft': s}, s not in ('BUS', 'HOV', 'LCH', 'LMO', 'RFS', 'TRN'))
+              for s in ('BUS', 'HOV', 'LCH', 'LMO', 'RFS', 'TRN', '737', '32S', 'JET', 'DH8')]
+    it = _Interp(prog)
+    bad = []
+    try:
+        for over, want in table:
+            try:
+                got = it.call_fi(rv, [_row(**over)])
+            except _Raised as r:
+                got = f'raises {type(r.exc).__name__}'
+            if bool(got) is not want or isinstance(got, str):
+                bad.append(f'{over or "plain row"}: {"kept" if got is True else ("dropped" if got is False else got)}')
+    except _Undecidable as u:
+        ctx.undecided('C13-R5', rv, 'is_row_valid on the documented values', f'not evaluable: {u}')
+    ctx.ob('C13-R5', rv, f'filter evaluated on {len(table)} documented field values', not bad,
+           'rejects exactly: end-of-file marker, service V/U, stops != 0, operating N, non-aircraft equipment' if not bad else
+           'the row filter no longer rejects exactly the documented rows: ' + '; '.join(bad[:4]))
+    ctx.floor('C13-R5', nrej + (0 if nrej else len(table)), 1, 'row rejection sites')
     for n in walk_no_nested(add.node):
         if isinstance(n, ast.Return) and isinstance(n.value, ast.Constant) and n.value.value is False:
+            atoms = _atoms([(t, pol) for t, pol, _ in guards_of(n)])
+            ok = bool(atoms)
+            for t, pol in atoms:
+                ft = _subst(add.node, t)
+                unknown_airport = isinstance(ft, ast.Compare) and len(ft.ops) == 1 and isinstance(ft.ops[0], ast.Is) \
+                    and pol and isinstance(ft.comparators[0], ast.Constant) and ft.comparators[0].value is None \
+                    and any(isinstance(c, ast.Call) and 'airport' in _tokens(call_name(c)) for c in ast.walk(ft.left))
+                unknown_airport = unknown_airport or (isinstance(t, ast.BoolOp) and isinstance(t.op, ast.Or) and pol and all(
+                    isinstance(x, ast.Compare) and isinstance(x.ops[0], ast.Is) and const_value(x.comparators[0]) is None
+                    and any(isinstance(c, ast.Call) and 'airport' in _tokens(call_name(c)) for c in ast.walk(_subst(add.node, x.left)))
+                    for x in t.values))
+                distance = not pol and any(isinstance(c, ast.Call) and {'distance', 'check'} <= _tokens(call_name(c))
+                                           for c in ast.walk(ft))
+                ok = ok and (unknown_airport or distance)
             gs = [norm(t) for t, pol, _ in guards_of(n)]
-            ok = gs in (['origin is None or destination is None'],) or \
-                (len(gs) == 1 and gs[0].startswith('not self._distance_check('))
             ctx.ob('C13-R5', add, f'import skipped under {gs}', ok,
                    'unknown airport / implausible distance' if ok else 'row skipped for an undocumented reason',
                    line=n.lineno)
-
-    # ---- R6 ----------------------------------------------------------------
-    dr = [c for c in calls_in(sch.node) if call_name(c) in ('pd.date_range', 'pandas.date_range')]
-    if len(dr) != 1:
-        ctx.undecided('C13-R6', sch, 'pd.date_range', f'{len(dr)} calls')
-    c = dr[0]
-    bad_kw = [k.arg for k in c.keywords if k.arg in ('inclusive', 'closed', 'periods', 'freq')]
-    ok = not bad_kw and [norm(a) for a in c.args[:2]] == ['effective_from', 'effective_to']
-    ctx.ob('C13-R6', sch, norm(c), ok, 'inclusive daily range over the two effective dates' if ok else
-           f'date range is restricted or not over the effective dates ({bad_kw})', line=c.lineno)
-    ctl = ast.parse("pd.date_range(a, b, inclusive='left')").body[0].value
-    ctx.control('C13-R6', any(k.arg == 'inclusive' for k in ctl.keywords), 'embedded date_range(..., inclusive=) is recognised')
-    loop = next((a for a in ancestors(c) if isinstance(a, ast.For)), None)
-    conts = [n for n in ast.walk(loop) if isinstance(n, ast.Continue)] if loop else []
-    seen = set()
-    for n in conts:
-        gs = [(norm(t), pol) for t, pol, _ in guards_of(n, stop=loop)]
-        if gs == [('DayOfWeek.from_pandas(flight_date) not in days', True)]:
-            seen.add('weekday')
-            ctx.ob('C13-R6', sch, 'skip when the weekday is not an operating day', True, gs[0][0], line=n.lineno)
-        elif gs == [('arr_timestamp < dep_timestamp', True)]:
-            seen.add('misordered')
-            blk = getattr(n, '_parent', None)
-            warned = any('Warning.Type.TIME_MISORDERING' in norm(s) for s in blk.body[:blk.body.index(n)]) if hasattr(blk, 'body') and n in blk.body else False
-            ctx.ob('C13-R6', sch, 'mis-ordered instance dropped only with a warning', warned,
-                   'warning recorded before the skip' if warned else 'instance dropped silently', line=n.lineno)
-        else:
-            ctx.ob('C13-R6', sch, f'instance skipped under {gs}', False,
-                   'an instance inside the effective range on an operating day is skipped for another reason',
-                   line=n.lineno)
-    for what in ('weekday', 'misordered'):
-        if what not in seen:
-            ctx.ob('C13-R6', sch, f'{what} skip present', False, f'the {what} rule is gone or changed form',
-                   line=sch.node.lineno)
-    ap = [cc for cc in calls_in(sch.node) if call_name(cc) == 'data.append']
-    ok = len(ap) == 1 and not [t for t, pol, o in guards_of(ap[0], stop=loop)]
-    ctx.ob('C13-R6', sch, 'every remaining date yields exactly one instance', ok,
-           'unconditional append after the two skips' if ok else 'append is conditional or duplicated')
-    tm = prog.module('types/time.py')
-    fp = tm.func('DayOfWeek.from_pandas')
-    r = [n for n in walk_no_nested(fp.node) if isinstance(n, ast.Return)]
-    ok = len(r) == 1 and norm(r[0].value) == 'cls(t.isoweekday())'
-    members = {k: getattr(v, 'value', None) for k, v in tm.cls('DayOfWeek').class_assignments().items()}
-    ok = ok and [members.get(k) for k in ('MONDAY', 'TUESDAY', 'WEDNESDAY', 'THURSDAY', 'FRIDAY', 'SATURDAY', 'SUNDAY')] == list(range(1, 8))
-    ctx.ob('C13-R6', fp, 'weekday numbering Monday=1..Sunday=7 via isoweekday()', ok,
-           'enum values agree with isoweekday' if ok else 'weekday numbering and conversion disagree')
-    # days parsing in from_csv_row
-    fr = om.func('CSVEntry.from_csv_row')
-    src = ' '.join(norm(s) for s in fr.node.body)
-    ok = 'for day in range(1, 8)' in src and "if str(day) in row['days']" in src and 'days.add(DayOfWeek(day))' in src
-    ctx.ob('C13-R6', fr, 'operating days parsed as digits 1..7', ok, 'range(1, 8)' if ok else
-           'operating-day parsing changed')
-    md = om.functions.get('CSVEntry.from_csv_row.<locals>.make_date')
-    ok = md is not None and "t == '00000000' or t == '99999999'" in ' '.join(norm(s) for s in md.node.body) \
-        and 'date(tint // 10000, tint % 10000 // 100, tint % 100)' in ' '.join(norm(s) for s in md.node.body)
-    ctx.ob('C13-R6', fr, 'open-ended markers map to None; YYYYMMDD decoded', bool(ok),
-           'make_date' if ok else 'effective-date decoding changed')
-    ca = om.functions.get('CSVEntry.from_csv_row.<locals>.convert_arrday')
-    ok = ca is not None
-    if ok:
-        s = ' '.join(norm(x) for x in ca.node.body)
-        ok = "case 'P': return -1" in s and "return 0" in s and 'return int(t)' in s
-    ctx.ob('C13-R6', fr, "arrival day offset: 'P' = -1, blank = 0, else the digit", bool(ok),
-           'convert_arrday' if ok else 'arrival day offset decoding changed')
-
-    # ---- R7 ----------------------------------------------------------------
-    rej = None
-    for n in walk_no_nested(dck.node):
-        if isinstance(n, ast.Return) and isinstance(n.value, ast.Constant) and n.value.value is False:
-            gs = [norm(t) for t, pol, _ in guards_of(n)]
-            if any('abs_diff' in t for t in gs):
-                rej = (n, gs)
-    ok = rej is not None and any(
-        t.replace(' ', '') == 'abs_diff>abs_difference_threshold_kmandpct_diff>relative_difference_threshold_percent'
-        for t in rej[1]) and 'given_distance_km > 0' in rej[1]
-    ctx.ob('C13-R7', dck, 'dropped only if absolute AND relative difference exceed their thresholds', ok,
-           str(rej[1]) if ok else 'plausibility rule changed (a plausible row can be dropped)',
-           line=(rej[0].lineno if rej else dck.node.lineno))
-    ad = single_def_value(dck.node, 'abs_diff')
-    pdv = single_def_value(dck.node, 'pct_diff')
-    ok = ad is not None and norm(ad) == 'abs(given_distance_km - gc_distance_km)' and pdv is not None \
-        and norm(pdv) == '100 * abs_diff / gc_distance_km'
-    ctx.ob('C13-R7', dck, 'difference measures', ok, 'absolute km and percent of the geodesic distance' if ok else
-           'difference measures changed')
-    dflt = {a.arg: norm(d) for a, d in zip(dck.node.args.args[-3:], dck.node.args.defaults[-3:])}
-    ok = dflt == {'zero_distance_threshold_km': '1.0', 'abs_difference_threshold_km': '50.0',
-                  'relative_difference_threshold_percent': '10.0'}
-    ctx.ob('C13-R7', dck, f'thresholds {dflt}', ok, '±10 %, ignoring < 50 km' if ok else 'documented thresholds changed',
-           nontrivial=False)
-    dc = [c for c in calls_in(add.node) if call_name(c) == 'self._distance_check']
-    ok = bool(dc) and norm(dc[0].args[-1]) == 'e.distance * STATUTE_MILES_TO_KM'
-    ctx.ob('C13-R7', add, 'stated distance converted from statute miles to km', ok,
-           'e.distance * STATUTE_MILES_TO_KM' if ok else 'stated distance is compared in the wrong unit')
-    # ---- R8: every airport the shipped data names is known to the importer ------------------------------------
-    # (a row is skipped as "unknown airport" only when the data really lack that code: the reader admits every row
-    # that carries an IATA code — the historical airports of the patch file are records of type `closed`)
-    am = prog.module('utils/airports.py')
-    rf = am.func('AirportsData._read_file')
-    comps = [x for x in ast.walk(rf.node) if isinstance(x, (ast.DictComp, ast.ListComp, ast.GeneratorExp))
-             and any(norm(g.iter) == 'reader' for g in x.generators)]
-    loops = [x for x in ast.walk(rf.node) if isinstance(x, ast.For) and norm(x.iter) == 'reader']
-    ctx.floor('C13-R8', len(comps) + len(loops), 1, 'row loops in AirportsData._read_file')
-    for x in comps:
-        ifs = [norm(i) for g in x.generators for i in g.ifs]
-        ok = ifs == ["row['iata_code']"]
-        ctx.ob('C13-R8', rf, f'airport rows kept when {ifs}', ok, 'every row with an IATA code is read' if ok else
-               ('rows with an IATA code are filtered out of the airport table: schedule rows touching those airports '
-                '(the patch file\'s historical airports are of type `closed`) are dropped as "unknown airport" although the '
-                'shipped data name them'), line=x.lineno)
-    for lp in loops:
-        esc = [y for y in ast.walk(lp) if isinstance(y, ast.Continue)]
-        conds = [norm(t) for y in esc for t, pol, o in guards_of(y) if any(a is lp for a in ancestors_(o))]
-        ok = all('iata_code' in c_ and 'type' not in c_ for c_ in conds)
-        ctx.ob('C13-R8', rf, f'airport rows skipped when {conds}', ok, 'only rows without an IATA code are skipped' if ok else
-               'rows with an IATA code are skipped', line=lp.lineno)
-    ctx.assumptions += ['time-zone arithmetic (zoneinfo, DST) and pandas date_range semantics are trusted',
-                        'identifier names carry their role']
